@@ -685,6 +685,49 @@ def kind_run(model, cls, schemes, vdt):
     return leaves[0][1]
 
 
+FACTORY_OF = {'_NearestInterpolator': 'nearest_interpolator',
+              '_LinearInterpolator': 'linear_interpolator',
+              '_PerAxisInterpolator': 'per_axis_interpolator'}
+
+
+def kind_run_factory(model, cls, schemes, vdt):
+    """Like kind_run, but through the public factory function (its own
+    conversions of the value array included); the input classification
+    helper `_check_interp_input` is a primitive here."""
+    hooks = KH(vdt)
+    base_on_call = hooks.on_call
+
+    def on_call(interp, f, args, kwargs, node):
+        if isinstance(f, Func) and f.name == '_check_interp_input':
+            return (args[0], 'meshgrid', False)
+        return base_on_call(interp, f, args, kwargs, node)
+    hooks.on_call = on_call
+    fname = FACTORY_OF[cls]
+    fn = model.ctx.func(DU, fname)
+    if fn is None:
+        raise AnalysisError('anchor vanished: %s' % fname)
+
+    def once(assume):
+        I = KInterp(model, assume, hooks)
+        args = [KArr(vdt), [KArr('float64')]]
+        if cls == '_PerAxisInterpolator':
+            args.append(list(schemes))
+        try:
+            interp = I.call_func(Func(fn, I.env_of(DU), None), args, {})
+            r = I.call(interp, [(KArr('float64'),)], {})
+        except PyRaise as e:
+            n = e.node
+            return ('raise', e.name, getattr(n, 'lineno', None),
+                    ast.unparse(n) if n is not None else '')
+        if not isinstance(r, KArr):
+            raise Undecided('result %r' % (r,))
+        return ('ok', r.dt, list(hooks.search_dt))
+    leaves = explore(once, limit=8)
+    if len(leaves) != 1:
+        raise Undecided('%d paths' % len(leaves))
+    return leaves[0][1]
+
+
 VALUE_DTYPES = ['float64', 'float32', 'complex128', 'complex64', 'int64',
                 'int32', 'int16', 'int8', 'uint8']
 
@@ -922,10 +965,15 @@ def check(ctx):
                      ('_LinearInterpolator', ('linear',)),
                      ('_PerAxisInterpolator', ('nearest',)),
                      ('_PerAxisInterpolator', ('linear',))]:
-        for vdt in VALUE_DTYPES:
-            r = kind_run(model, cls, sch, vdt)
+        for vdt, via in itertools.product(VALUE_DTYPES, ('class',
+                                                         'factory')):
+            if via == 'class':
+                r = kind_run(model, cls, sch, vdt)
+                key = '%s[%s]:%s' % (cls, sch[0], vdt)
+            else:
+                r = kind_run_factory(model, cls, sch, vdt)
+                key = '%s[%s]:%s' % (FACTORY_OF[cls], sch[0], vdt)
             n5 += 1
-            key = '%s[%s]:%s' % (cls, sch[0], vdt)
             if r[0] == 'raise':
                 rep.violation('R5', key, 'out-of-place evaluation raises %s '
                               'at `%s`: the accumulator cannot hold the '
